@@ -24,7 +24,7 @@ CFG = {
             "StateProcessor.Process + Finalize": "corr on sums (blk cases) + direct judgement",
             "no other balance mutator": "gen (go/ast inventory of every AddBalance/SubBalance/SetBalance/Suicide/CreateAccount mention outside core/state and of the balance writers inside it; sites_eq_alphabet, state_writers_eq)"},
     "assumptions": ["Go runtime, math/big and the cryptographic primitives are modelled, not verified (DESIGN.md 2.5)",
-                    "the EVM reaches balances only through the inventoried sites (checked syntactically by T-gen on every run, not proved semantically)",
+                    "the EVM reaches balances only through the inventoried sites (checked syntactically by T-gen on every run, not proved semantically); over the C07 machine this is the hypothesis AlphabetOracle (every oracle effect acts on balances as a word over the alphabet) of vm_run_supply_nonincreasing / tx_supply_nonincreasing_over_vm / block_supply_bound_over_vm, together with TxVm.OracleOk and Vm.EnvOK",
                     "snapshot/revert restore balances and suicide marks exactly (property C09)",
                     "uncle heights satisfy height <= uncle + 8 (VerifyUncles, property C13); outside that window the Go code would subtract"],
     "trusted_base": ["Model.Supply mirrors core/evm.go Transfer/CanTransfer, core/vm/instructions.go opSuicide, core/state/statedb.go Suicide/CreateAccount/Finalise, consensus/misc/hf.go ApplyHardFork4, consensus/aquahash/consensus.go accumulateRewards",
@@ -33,7 +33,7 @@ CFG = {
 META = {
     "technique": "Lean 4 proof (no finite word over the balance-changing primitives, under any snapshot/revert nesting, increases the total; fee machinery balanced; rewards exact) tied to the code by a call-site inventory, regenerated constants and differential correspondence",
     "text": "Theorems prim_trace_nonincreasing, prim_trace_exact_without_selfdestruct, tx_conserves, tx_supply_nonincreasing, reward_exact, "
-            "hf4_only_lowers, block_supply_bound, block_supply_exact_without_selfdestruct hold for every program (as a word over the primitives), "
+            "hf4_only_lowers, block_supply_bound, block_supply_exact_without_selfdestruct, vm_run_supply_nonincreasing, tx_supply_nonincreasing_over_vm, block_supply_bound_over_vm hold for every program (as a word over the primitives), "
             "every pre-state, every block; issuance_schedule/issuance_matches_probes/cutoff_is_maxMoney/sites_eq_alphabet are re-proved against what "
             "the compiled packages and the source tree say on every run; thousands of hostile-contract transactions and blocks are executed by the "
             "real EVM/Process/Finalize and the model must reproduce every balance (tx) and the exact sum (blocks without SELFDESTRUCT).",
